@@ -25,8 +25,12 @@ def sh(cmd, cwd=None, env=None, timeout=3600):
     e = dict(os.environ)
     if env:
         e.update(env)
-    r = subprocess.run(cmd, shell=True, cwd=cwd, env=e, stdout=subprocess.PIPE, stderr=subprocess.STDOUT,
-                       timeout=timeout)
+    try:
+        r = subprocess.run(cmd, shell=True, cwd=cwd, env=e, stdout=subprocess.PIPE, stderr=subprocess.STDOUT,
+                           timeout=timeout)
+    except subprocess.TimeoutExpired:
+        subprocess.run('pkill -f "%s"' % cmd.split()[-1], shell=True)
+        return 124, 'TIMEOUT after %ds: %s' % (timeout, cmd)
     out = '\n'.join(l for l in r.stdout.decode('utf-8', 'replace').splitlines() if 'conda' not in l)
     return r.returncode, out
 
@@ -93,10 +97,9 @@ def main():
             json.dump(meta, open(os.path.join(dst, 'meta.json'), 'w'), indent=1)
             summary.append((sid, 'demo %s' % ('ok' if confirmed else 'NOT-CONFIRMED(p=%d,c=%d)' % (rc_p, rc_c)),
                             'tests: %s | check exit %d %s' % (t_res, rc_k, '; '.join(viol)[:160])))
+            print(' | '.join(summary[-1]), flush=True)
         finally:
             sh('git -C /repo worktree remove --force %s' % wt)
-    for s in summary:
-        print(' | '.join(s))
     return 0
 
 
